@@ -138,6 +138,8 @@ SweepPost(mask, prop) ==
 SW_PropCoherent(o) == \A i \in DOMAIN o.prop : Coherent(o.prop[i])
 SW_Update(o)       == /\ Len(o.slots) = Len(cur) /\ Len(o.mask) = Len(cur) /\ Len(o.prop) = Len(cur)
                       /\ o.slots = SweepPost(o.mask, o.prop)
+\* the kernel applied to a walker is the one of the label it ENTERED the mutation step with: labels do not change during a call
+SW_LabelsFixed(o)  == Len(o.slots) = Len(cur) => \A i \in DOMAIN cur : o.slots[i].lab = cur[i].lab
 SW_Evals(o)        == o.dEvals = cfg.np
 \* documented behaviour beyond the listed properties: step sizes stay finite (tpCN: within [0, min(2.38/sqrt(d), 0.99)])
 SW_SigmaBounds(o)  == o.sigmaOK
@@ -188,7 +190,7 @@ MP_Clauses(o) == [MP_Count |-> MP_Count(o), MP_Coherent |-> MP_Coherent(o), MP_N
                   MP_Calls |-> MP_Calls(o), MP_Evals |-> MP_Evals(o), MP_LogzHull |-> MP_LogzHull(o)]
 MB_Clauses(o) == [MB_SameSlots |-> MB_SameSlots(o), MB_Labels |-> MB_Labels(o), MB_ModesOK |-> MB_ModesOK(o),
                   MB_Boundaries |-> MB_Boundaries(o)]
-SW_Clauses(o) == [SW_PropCoherent |-> SW_PropCoherent(o), SW_Update |-> SW_Update(o), SW_Evals |-> SW_Evals(o),
+SW_Clauses(o) == [SW_PropCoherent |-> SW_PropCoherent(o), SW_Update |-> SW_Update(o), SW_LabelsFixed |-> SW_LabelsFixed(o), SW_Evals |-> SW_Evals(o),
                   SW_SigmaBounds |-> SW_SigmaBounds(o)]
 ME_Clauses(o) == [ME_Slots |-> ME_Slots(o), ME_Calls |-> ME_Calls(o), ME_Swept |-> ME_Swept(o),
                   ME_Steps |-> ME_Steps(o), ME_SweepBounds |-> ME_SweepBounds(o)]
